@@ -1940,6 +1940,239 @@ def _post_vis(lst):
 
 
 # ------------------------------------------------------------------------------------------------ main
+# ---------------------------------------------------------------------------------------------------------------------------------
+# Round 5: constructor / parse calls that FAIL on a map whose live objects hold the requested IDs.  The caller catches the exception and
+# carries on; the half-built object dies (at once, or later when the exception object goes); then new objects are allocated and the map
+# is scanned.  Every ID-bearing class, every constructor parameter with junk values, every leaf of an exported block corrupted.
+
+JUNK_ARGS = [5, 'grp_a', None, 3.5, [[1]], object]      # `object` stands for a fresh object() (replayable)
+JUNK_TEXT = ['grp_a', '', '(0 0', '1 2 x', '[0 0', '-']
+ID_PARAMS = {'Solid': 'id', 'Side': 'des_id', 'Entity': 'ent_id', 'VisGroup': 'id', 'EntityGroup': 'id'}
+KIND_OF_CLASS = {'Solid': 'solid', 'Side': 'face', 'Entity': 'ent', 'VisGroup': 'vis', 'EntityGroup': 'group'}
+
+
+def _fc_map():
+    """A small map whose live objects hold the IDs 1.. of every kind: 3 world brushes, a brush entity, two point entities (one nav
+    node), a visgroup with a child, a brush group."""
+    from srctools import Vec
+    from srctools.vmf import VMF, VisGroup, EntityGroup
+    v = VMF()
+    for i in range(3):
+        v.add_brush(v.make_prism(Vec(128 * i, 0, 0), Vec(128 * i + 64, 64, 64)).solid)
+    be = v.create_ent('func_detail')
+    be.solids.append(v.make_prism(Vec(0, 256, 0), Vec(64, 320, 64)).solid)
+    v.create_ent('info_target', targetname='t')
+    v.create_ent('info_node', nodeid='1')
+    child = VisGroup(v, 'child')
+    v.vis_tree.append(VisGroup(v, 'top', child_groups=[child]))
+    g = EntityGroup(v)
+    v.groups[g.id] = g
+    from srctools.vmf import Output
+    for b in v.brushes[:2]:         # blocks with every optional key
+        b.group_id = g.id
+        b.visgroup_ids.add(1)
+    be.groups.add(g.id)
+    be.visgroup_ids.add(1)
+    be.add_out(Output('OnUser1', 't', 'Kill'))
+    be.solids[0].visgroup_ids.add(2)
+    return v
+
+
+def _fc_allocate(v) -> None:
+    """New objects of every kind, enough to walk through the small IDs."""
+    from srctools import Vec
+    from srctools.vmf import VisGroup, EntityGroup
+    for i in range(2):
+        v.add_brush(v.make_prism(Vec(128 * i, 512, 0), Vec(128 * i + 64, 576, 64)).solid)
+    v.create_ent('info_target')
+    v.create_ent('info_node', nodeid='-1')
+    v.vis_tree.append(VisGroup(v, 'later'))
+    g = EntityGroup(v)
+    v.groups[g.id] = g
+
+
+def _fc_required(cls_name: str):
+    from srctools import Vec
+    return {'Side': {'planes': [Vec(0, 0, 0), Vec(1, 0, 0), Vec(0, 1, 0)]}, 'VisGroup': {'name': 'x'}}.get(cls_name, {})
+
+
+def _fc_target(v, cls_name: str, which: int) -> int:
+    ids = scan_map(v)[KIND_OF_CLASS[cls_name]]
+    return ids[which % len(ids)]
+
+
+def fc_ctor_case(cls_name: str, param: str, junk: list[int], which: int, hold: bool):
+    """Constructor calls `cls(map, <id param>=<ID of a live object>, <param>=<junk>)` for the listed junk values; returns
+    (problems after the allocations that follow, number of calls that raised)."""
+    import srctools.vmf as V
+    cls = getattr(V, cls_name)
+    v = _fc_map()
+    kept = []
+    raised = 0
+    for j in junk:
+        val = JUNK_ARGS[j]
+        val = object() if val is object else val
+        kw = dict(_fc_required(cls_name))
+        kw[ID_PARAMS[cls_name]] = _fc_target(v, cls_name, which)
+        kw[param] = val
+        try:
+            cls(v, **kw)
+        except Exception as e:      # the caller of a failing constructor: catches, carries on
+            raised += 1
+            if hold:
+                kept.append(e)      # the traceback keeps the half-built object alive for a while
+    gc.collect()
+    if hold:
+        _fc_allocate(v)
+        del kept[:]
+        gc.collect()
+    _fc_allocate(v)
+    return list(dup_report(scan_map(v))), raised
+
+
+def _fc_blocks(v):
+    """Exported blocks of live objects of the map, by class: their "id"s are IDs that live objects hold."""
+    import io
+    from srctools import Keyvalues
+    out = {}
+    buf = io.StringIO()
+    v.brushes[1].export(buf, '')
+    out['Solid'] = Keyvalues.parse(buf.getvalue()).find_key('solid')
+    out['Side'] = next(out['Solid'].find_all('side')).copy()
+    buf = io.StringIO()
+    v.entities[0].export(buf, '')
+    out['Entity'] = Keyvalues.parse(buf.getvalue()).find_key('entity')
+    out['VisGroup'] = Keyvalues('visgroup', [Keyvalues('name', 'top'), Keyvalues('visgroupid', '1'), Keyvalues('color', '1 2 3'),
+                                             Keyvalues('visgroup', [Keyvalues('name', 'c'), Keyvalues('visgroupid', '2'), Keyvalues('color', '1 2 3')])])
+    out['EntityGroup'] = Keyvalues('group', [Keyvalues('id', '1'), Keyvalues('editor', [Keyvalues('color', '1 2 3'), Keyvalues('visgroupshown', '1'),
+                                                                                          Keyvalues('visgroupautoshown', '1')])])
+    return out
+
+
+def _fc_leaves(block, path=()):
+    for i, ch in enumerate(block):
+        if ch.has_children():
+            yield from _fc_leaves(ch, path + (i,))
+        else:
+            yield path + (i,)
+
+
+def _fc_at(block, path):
+    for i in path:
+        block = list(block)[i]
+    return block
+
+
+def fc_parse_case(cls_name: str, leaf: int, junk: list[int], hold: bool):
+    """`cls.parse(map, block)` on the exported block of a live object (so every "id" in it is taken) with one leaf value replaced
+    by junk text (index len(JUNK_TEXT) = the leaf is removed)."""
+    import srctools.vmf as V
+    cls = getattr(V, cls_name)
+    v = _fc_map()
+    base = _fc_blocks(v)[cls_name]
+    leaves = list(_fc_leaves(base))
+    path = leaves[leaf % len(leaves)]
+    kept = []
+    raised = 0
+    name = None
+    for j in junk:
+        block = base.copy()
+        tgt = _fc_at(block, path)
+        name = tgt.real_name
+        if j >= len(JUNK_TEXT):
+            parent = _fc_at(block, path[:-1])
+            del parent[path[-1]]
+        else:
+            tgt.value = JUNK_TEXT[j]
+        try:
+            cls.parse(v, block)
+        except Exception as e:
+            raised += 1
+            if hold:
+                kept.append(e)
+    gc.collect()
+    if hold:
+        _fc_allocate(v)
+        del kept[:]
+        gc.collect()
+    _fc_allocate(v)
+    return list(dup_report(scan_map(v))), raised, name, len(leaves)
+
+
+def search_failed_constructors(ck: Ck) -> None:
+    import sys
+    hook = sys.unraisablehook
+    # the destructor of an object whose constructor failed before `self.map` / `self.id` were set raises AttributeError, which CPython
+    # reports through this hook ("Exception ignored in ..."): expected here, not printed
+    sys.unraisablehook = lambda *a: None
+    try:
+        _search_failed_constructors(ck)
+    finally:
+        sys.unraisablehook = hook
+
+
+def _search_failed_constructors(ck: Ck) -> None:
+    import inspect
+    import srctools.vmf as V
+    found: dict[str, tuple] = {}
+    gc_begin()
+    all_junk = list(range(len(JUNK_ARGS)))
+    n_ctor = n_raise = 0
+    for cls_name in ID_PARAMS:
+        cls = getattr(V, cls_name)
+        params = [p for p in list(inspect.signature(cls.__init__).parameters)[2:] if p != ID_PARAMS[cls_name] and p not in _fc_required(cls_name)]
+        for pi, param in enumerate(params):
+            for hold in (False, True):
+                which = ck.rng.randrange(4)
+                probs, raised = fc_ctor_case(cls_name, param, all_junk, which, hold)
+                n_ctor += len(all_junk)
+                n_raise += raised
+                ck.count('failed_constructor_calls', len(all_junk))
+                ck.hist('failed_constructor_class', cls_name, raised)
+                if raised:
+                    ck.seen(('failctor', cls_name, param, hold, which))
+                if probs:
+                    # narrow to one junk value
+                    for j in all_junk:
+                        p1, _ = fc_ctor_case(cls_name, param, [j], which, hold)
+                        if p1:
+                            kind, what, vals = p1[0]
+                            key = f'{"fixup-index" if kind.startswith("fixup") else kind + "-id"}-{what}-after-failed-constructor'
+                            found.setdefault(key, (f'{cls_name}(map, {ID_PARAMS[cls_name]}=<ID of a live object>, {param}={JUNK_ARGS[j]!r}) raises; afterwards '
+                                                   f'{kind} IDs {what}: {vals}',
+                                                   {'mode': 'ctor', 'cls': cls_name, 'param': param, 'junk': [j], 'which': which, 'hold': hold, 'problem': [kind, what, vals]}))
+                            break
+    all_text = list(range(len(JUNK_TEXT) + 1))
+    for cls_name in ID_PARAMS:
+        n_leaves = fc_parse_case(cls_name, 0, [], False)[3]
+        step = 1        # every leaf: the whole family costs a few seconds
+        start = ck.rng.randrange(step)
+        for leaf in range(start, n_leaves, step):
+            hold = bool((leaf // step) % 2)
+            probs, raised, name, _ = fc_parse_case(cls_name, leaf, all_text, hold)
+            ck.count('failed_parse_calls', len(all_text))
+            ck.hist('failed_parse_class', cls_name, raised)
+            n_raise += raised
+            if raised:
+                ck.seen(('failparse', cls_name, leaf, hold))
+            if probs:
+                for j in all_text:
+                    p1, _, _, _ = fc_parse_case(cls_name, leaf, [j], hold)
+                    if p1:
+                        kind, what, vals = p1[0]
+                        key = f'{"fixup-index" if kind.startswith("fixup") else kind + "-id"}-{what}-after-failed-parse'
+                        jt = repr(JUNK_TEXT[j]) if j < len(JUNK_TEXT) else '<removed>'
+                        found.setdefault(key, (f'{cls_name}.parse(map, <exported block of a live object with "{name}" = {jt}>) raises; afterwards {kind} IDs {what}: {vals}',
+                                               {'mode': 'parse', 'cls': cls_name, 'leaf': leaf, 'junk': [j], 'hold': hold, 'problem': [kind, what, vals]}))
+                        break
+    gc_end()
+    ck.extra['failed_constructor_search'] = {'constructor_calls': n_ctor, 'calls_that_raised': n_raise}
+    ck.obligation('search:some-constructor-calls-do-fail', n_raise >= 20, f'{n_raise} of the junk / corrupted calls raised')
+    for key, (what, rep) in found.items():
+        rep['how'] = 'checks.c08.fc_ctor_case(cls, param, junk, which, hold) / fc_parse_case(cls, leaf, junk, hold): problems after the failing call, gc and new allocations'
+        ck.violation(key, what, rep)
+
+
 class ImplHang(BaseException):      # not an Exception: the `except Exception` of a history runner must not swallow it
     pass
 
@@ -2104,6 +2337,7 @@ def run(ck: Ck) -> None:
         for name, fn, args in stages:
             guarded(ck, name, fn, *args)
     guarded(ck, 'search', search_lifecycle)
+    guarded(ck, 'failed-constructors', search_failed_constructors)
     if th is not None:
         th.result()
         ck.obligations[th_pos:th_pos] = ck_t.obligations
@@ -2163,6 +2397,10 @@ def run(ck: Ck) -> None:
         ck.explain('instance:maps_get_idman_unless_preserve_ids')
     if has('xmap-') or has('solid-id-duplicate') or has('face-id-duplicate'):
         ck.explain('instance:helpers_build_every_part_in_the_one_map_they_are_given')
+    for kind, name in (('solid', 'solid'), ('face', 'face'), ('ent', 'entity'), ('vis', 'visgroup'), ('group', 'group')):
+        if has(kind + '-id-', '-after-failed-'):
+            ck.explain(f'instance:{name}_constructor_failure_releases_only_its_own_id')
+            ck.explain('instance:constructors_fail_safely')
     if has('parse-') or has('-after-parse'):
         ck.explain('correspondence:parse')
         ck.explain('correspondence:parse-destructor-time')
@@ -2180,6 +2418,12 @@ def run(ck: Ck) -> None:
 
 def replay(data: dict) -> int:
     r = data['replay']
+    if r.get('mode') == 'ctor':
+        print(fc_ctor_case(r['cls'], r['param'], r['junk'], r['which'], r['hold']))
+        return 0
+    if r.get('mode') == 'parse':
+        print(fc_parse_case(r['cls'], r['leaf'], r['junk'], r['hold']))
+        return 0
     if 'history' in r:
         steps, _, _ = run_history([tuple(e) for e in r['history']])
         for i, s in enumerate(steps):
